@@ -154,14 +154,14 @@ example : noQuoteAtEnds [100, 47, 97] = true := by decide
     imported while its own body was still running": `C14_fixed_cyclic_import_reran`.) -/
 theorem import_runs_once (env : Env) (fuel : Nat) (main : List Stmt)
     (h : Clean (run env fuel main).2) : (run env fuel main).2.ticks.Nodup :=
-  ((run_rel env (R2_impOK env) fuel main).2.2 h ⟨by simp [St.init], by simp [St.init]⟩).2
+  ((run_rel env (R2_impOK env) fuel main trivial).2.2 h ⟨by simp [St.init], by simp [St.init]⟩).2
 
 /-- `vm.importing` is a stack: whatever an evaluation does (failing, cyclic, spawned imports
     included), every statement and every `importModule` call leaves the list of modules being
     imported as it found it — in particular it is empty again when the script ends. -/
 theorem importing_balanced (env : Env) (fuel : Nat) (main : List Stmt) :
     (run env fuel main).2.importing = [] :=
-  (run_rel env (R2_impOK env) fuel main).1
+  (run_rel env (R2_impOK env) fuel main trivial).1
 
 /-- **A cyclic import is refused, and costs nothing**: asked for a module that is not cached
     and whose body is still being evaluated, `vm.importModule` returns an import error without
@@ -176,7 +176,7 @@ theorem cyclic_import_refused (env : Env) (fuel depth : Nat) (st : St) (name : P
     ever created are the body-execution log (unconditionally). -/
 theorem objects_are_body_runs (env : Env) (fuel : Nat) (main : List Stmt) :
     (run env fuel main).2.objs.map (·.1) = (run env fuel main).2.ticks :=
-  (run_rel env (R3_impOK env) fuel main).2.2 (by simp [OT, St.init])
+  (run_rel env (R3_impOK env) fuel main trivial).2.2 (by simp [OT, St.init])
 
 theorem nodup_getElem_inj {α : Type} (l : List α) (h : l.Nodup) (i j : Nat) (a : α)
     (hi : l[i]? = some a) (hj : l[j]? = some a) : i = j := by
@@ -220,7 +220,7 @@ theorem import_same_object (env : Env) (fuel : Nat) (main : List Stmt)
 /-- the VM-side invariant `K` holds in the final state of every evaluation, whatever the
     importer hands out -/
 theorem run_K (env : Env) (fuel : Nat) (main : List Stmt) : K (run env fuel main).2 :=
-  (run_rel env (R3_impOK env) fuel main).2.1
+  (run_rel env (R3_impOK env) fuel main trivial).2.1
     ⟨by simp [St.init], by simp [St.init], by simp [St.init], by simp [St.init], by simp [St.init]⟩
 
 /-- **A module's globals are its own — for ANY importer, under the hypothesis that is
@@ -274,7 +274,7 @@ theorem importer_distinct_paths_distinct_code (env : Env) (hl : LocalImporter en
     spawned clones) the unchanged importer's cache is injective on code identities. -/
 theorem importer_distinct_paths_distinct_code_run (env : Env) (hl : LocalImporter env) (fuel : Nat)
     (main : List Stmt) : CodeInj (run env fuel main).2 :=
-  (run_rel env (R4_impOK env hl) fuel main
+  (run_rel env (R4_impOK env hl) fuel main trivial
     ⟨by intro p hp; simp [St.init] at hp, by intro p hp; simp [St.init] at hp⟩).1
 
 /-- **A module's globals are its own, for the importers of the unchanged code**
@@ -298,21 +298,6 @@ theorem globalsDisjoint_of_distinct_code (env : Env) (fuel : Nat) (main : List S
   · exact Or.inl e
   · exact Or.inr ((h a ha).2 b hb e)
 
-theorem getElem?_modifyAt_ne {α : Type} (f : α → α) (n m : Nat) (l : List α) (h : m ≠ n) :
-    (modifyAt f n l)[m]? = l[m]? := by
-  induction l generalizing n m with
-  | nil => cases n <;> rfl
-  | cons x xs ih =>
-    cases n with
-    | zero =>
-      cases m with
-      | zero => exact absurd rfl h
-      | succ m => simp [modifyAt]
-    | succ n =>
-      cases m with
-      | zero => simp [modifyAt]
-      | succ m => simp only [modifyAt, List.getElem?_cons_succ]; exact ih n m (by omega)
-
 /-- a top-level store `x := v` / `x = v` executed in the frame whose globals array is `g`
     (the script for `g = 0`, a module body otherwise) changes no other globals array: a
     same-named variable of any other module or of the script keeps its value. -/
@@ -322,11 +307,12 @@ theorem store_only_own_globals (imp : ImpFn) (env : Env) (g depth : Nat) (st : S
   simp only [execStmt, St.store, St.globals]
   rw [getElem?_modifyAt_ne _ _ _ _ h]
 
-/-- a store performed by a module's own function (`alias.set_x(v)`) changes only the globals
-    array of the module object the alias denotes -/
+/-- a store performed by a module's own function (`alias.set_x(v)`) changes only ONE globals
+    array: the one the executing VM has loaded for the code of the module object the alias denotes
+    (`St.fnArray`, the function view; `module_views_agree`: the array the module object is bound to) -/
 theorem module_function_store_only_target (imp : ImpFn) (env : Env) (g depth : Nat) (st : St)
-    (alias var : Path) (val : Int) (o : Nat) (n : Path) (gt : Nat)
-    (ha : (st.globals g).lookup alias = some (.mod o)) (ho : st.objs[o]? = some (n, gt))
+    (alias var : Path) (val : Int) (o : Nat) (gt : Nat)
+    (ha : (st.globals g).lookup alias = some (.mod o)) (ho : st.fnArray o = some gt)
     (g' : Nat) (h : g' ≠ gt) :
     (execStmt imp env g depth st (.setVia alias var val)).2.globals g' = st.globals g' := by
   simp only [execStmt]
@@ -338,8 +324,8 @@ theorem module_function_store_only_target (imp : ImpFn) (env : Env) (g depth : N
     module) changes only the globals array of the module object the alias denotes: the same-named
     counter of every other module — one with byte-identical source included — keeps its value -/
 theorem module_counter_only_target (imp : ImpFn) (env : Env) (g depth : Nat) (st : St)
-    (alias var : Path) (k : Int) (o : Nat) (n : Path) (gt : Nat)
-    (ha : (st.globals g).lookup alias = some (.mod o)) (ho : st.objs[o]? = some (n, gt))
+    (alias var : Path) (k : Int) (o : Nat) (gt : Nat)
+    (ha : (st.globals g).lookup alias = some (.mod o)) (ho : st.fnArray o = some gt)
     (g' : Nat) (h : g' ≠ gt) :
     (execStmt imp env g depth st (.addVia alias var k)).2.globals g' = st.globals g' := by
   simp only [execStmt]
@@ -353,8 +339,8 @@ theorem module_counter_only_target (imp : ImpFn) (env : Env) (g depth : Nat) (st
 /-- a list appended to by a module's own function (`alias.push_l(v)`, i.e. `l.append(v)` inside
     the module) changes only the globals array of the module object the alias denotes -/
 theorem module_list_only_target (imp : ImpFn) (env : Env) (g depth : Nat) (st : St)
-    (alias var : Path) (v : Int) (o : Nat) (n : Path) (gt : Nat)
-    (ha : (st.globals g).lookup alias = some (.mod o)) (ho : st.objs[o]? = some (n, gt))
+    (alias var : Path) (v : Int) (o : Nat) (gt : Nat)
+    (ha : (st.globals g).lookup alias = some (.mod o)) (ho : st.fnArray o = some gt)
     (g' : Nat) (h : g' ≠ gt) :
     (execStmt imp env g depth st (.pushVia alias var v)).2.globals g' = st.globals g' := by
   simp only [execStmt]
@@ -854,5 +840,276 @@ example : (run extEnv 5 extMain).2.objs = [([97, 46, 114], 1), ([97], 2)] := by 
 -- the same two statements against the usual extension list reach one file once
 example : runsOncePerFile (envOf exFiles 1024) (run (envOf exFiles 1024) 9 exMain).2 = true := by decide
 example : reachedFile (envOf exFiles 1024) (.quoted nmA) = some nmA := by decide
+
+/-! ## Part D: several evaluations that share ONE importer
+
+`NewLocalImporter`/`NewFSImporter` may be shared between VMs and evaluations.  A session
+(`Model.lean`, Part C) is any number `n` of evaluations, each with its own VM, and ANY schedule —
+a list of (evaluation, top-level statement) that says who runs next: nested (a host builtin that
+runs a plugin script to its end), alternating, or one after the other.  The theorems below are
+about `session env fuel n sched` for every module table, every fuel, every `n` and every schedule:
+the importer hands out a NEW module object for every `Import` call (tie
+`importer_module_sources_tie`), so nothing an evaluation holds is ever touched by another one. -/
+
+theorem importModule_R5 (env : Env) (fuel : Nat) : ∀ m d st nm, R5 m st (importModule env fuel d st nm).2 :=
+  fun m d st nm => importModule_rel env (R5_impOK env m) fuel d st nm
+
+theorem session_snoc (env : Env) (fuel n : Nat) (sched : List (Nat × Stmt)) (e : Nat) (stmt : Stmt) :
+    session env fuel n (sched ++ [(e, stmt)]) =
+      sessStep (importModule env fuel) env (session env fuel n sched) e stmt := by
+  simp [session, sessRun, List.foldl_append]
+
+/-- the invariant `SInv` (Lemmas.lean) holds in every state a session can reach -/
+theorem session_inv (env : Env) (fuel n : Nat) (sched : List (Nat × Stmt)) : SInv n (session env fuel n sched) :=
+  SInv_run _ (importModule_R5 env fuel) env n sched
+
+/-- **A module object is bound once**: whatever statement whichever evaluation executes next
+    (imports that create module objects, failing, cyclic and spawned imports included), the
+    table of module objects only GROWS — the globals array an existing module object is bound to
+    (`Module.UseGlobals`, what `module.attr` reads) is never changed, by its own evaluation or by
+    another one. -/
+theorem module_objects_never_rebound (env : Env) (fuel n : Nat) (sched : List (Nat × Stmt)) (e : Nat) (stmt : Stmt) :
+    ∃ ext, (session env fuel n (sched ++ [(e, stmt)])).sh.objs = (session env fuel n sched).sh.objs ++ ext := by
+  rw [session_snoc]
+  generalize session env fuel n sched = s
+  unfold sessStep
+  split
+  · exact ⟨[], by simp⟩
+  · rename_i v _
+    split
+    · exact (execStmt_rel (R5_relOK v.main) _ (importModule_R5 env fuel v.main) env v.main 0 _ stmt (Or.inl rfl)).objs
+    · exact ⟨[], by simp⟩
+
+theorem fnArray_of_W (st : St) (hw : W st) (p : Path × Nat) (hp : p ∈ st.cache) :
+    ∃ g, st.attrArray p.2 = some g ∧ st.fnArray p.2 = some g := by
+  obtain ⟨_, _, v, ca⟩ := hw
+  obtain ⟨nm, g, c, ho, hl⟩ := ca p hp
+  refine ⟨g, by simp [St.attrArray, ho], ?_⟩
+  simp [St.fnArray, ho, v c g hl, hl]
+
+/-- **The two views of a module agree, in every evaluation of every session**: for every
+    evaluation `v` and every module it has imported (every entry of its `vm.modules`), the
+    globals array the module object is bound to — what `alias.x` reads — IS the array `v`'s VM
+    has loaded for the module's code — what the module's functions (`alias.get_x()`,
+    `alias.set_x(…)`) read and write: a module has one state, however it is looked at, and
+    however many other evaluations imported the same module from the same importer meanwhile. -/
+theorem module_views_agree (env : Env) (fuel n : Nat) (sched : List (Nat × Stmt)) :
+    ∀ v ∈ (session env fuel n sched).vms, ∀ p ∈ v.cache,
+      ∃ g, (session env fuel n sched).sh.attrArray p.2 = some g ∧
+        ((session env fuel n sched).view v).fnArray p.2 = some g := by
+  intro v hv p hp
+  exact fnArray_of_W _ ((session_inv env fuel n sched).w v hv) p hp
+
+/-- the decidable Spec predicate the oracle prints agrees with the statement -/
+theorem session_views_agree (env : Env) (fuel n : Nat) (sched : List (Nat × Stmt)) :
+    sessViewsAgree (session env fuel n sched) = true := by
+  simp only [sessViewsAgree, List.all_eq_true, Bool.and_eq_true, beq_iff_eq]
+  intro v hv p hp
+  obtain ⟨g, h1, h2⟩ := module_views_agree env fuel n sched v hv p hp
+  rw [h2, h1]
+  exact ⟨rfl, rfl⟩
+
+/-- **Evaluations that share an importer share nothing else**: in every reachable state of every
+    session, two different evaluations `i ≠ j` hold no module object in common (no entry of
+    `i`'s `vm.modules` is an object of `j`'s — same module name or not), no globals array of a
+    module of `i` is an array of a module of `j`, and none is the array of either script. -/
+theorem evaluations_share_nothing (env : Env) (fuel n : Nat) (sched : List (Nat × Stmt))
+    (i j : Nat) (vi vj : VM) (hij : i ≠ j)
+    (hi : (session env fuel n sched).vms[i]? = some vi) (hj : (session env fuel n sched).vms[j]? = some vj) :
+    (∀ p ∈ vi.cache, ∀ q ∈ vj.cache, p.2 ≠ q.2) ∧
+    (∀ g ∈ vi.arrays, g ∉ vj.arrays ∧ g ≠ vj.main ∧ g ≠ vi.main) := by
+  have inv := session_inv env fuel n sched
+  have hd := inv.disj i j vi vj hij hi hj
+  refine ⟨hd.2, ?_⟩
+  intro g hg
+  simp only [VM.arrays, List.mem_map] at hg
+  obtain ⟨p, hp, rfl⟩ := hg
+  have hlow := inv.low vi (List.mem_of_getElem? hi) p hp
+  have hmi := inv.main i vi hi
+  have hmj := inv.main j vj hj
+  have hli : i < n := by rw [← inv.len]; exact getElem?_lt_of_some hi
+  have hlj : j < n := by rw [← inv.len]; exact getElem?_lt_of_some hj
+  refine ⟨?_, by omega, by omega⟩
+  intro hin
+  simp only [VM.arrays, List.mem_map] at hin
+  obtain ⟨q, hq, he⟩ := hin
+  exact hd.1 p hp q hq he.symm
+
+/-- **A module's globals are its own — also across evaluations** (non-interference, one step):
+    when evaluation `e` executes its next statement — any statement: imports, stores, calls of
+    module functions through any alias, try-imports, spawned imports — every globals array of
+    every OTHER evaluation `j` (its script's array and the arrays of all modules it has imported)
+    holds afterwards exactly what it held before.  By induction over the schedule: what an
+    evaluation sees in its modules is what it would see if no other evaluation existed. -/
+theorem other_evaluations_untouched (env : Env) (fuel n : Nat) (sched : List (Nat × Stmt)) (e : Nat) (stmt : Stmt)
+    (j : Nat) (vj : VM) (hje : j ≠ e) (hj : (session env fuel n sched).vms[j]? = some vj)
+    (g : Nat) (hg : g = vj.main ∨ g ∈ vj.arrays) :
+    (session env fuel n (sched ++ [(e, stmt)])).sh.globals g = (session env fuel n sched).sh.globals g := by
+  rw [session_snoc]
+  have inv := session_inv env fuel n sched
+  generalize session env fuel n sched = s at *
+  unfold sessStep
+  split
+  · rfl
+  · rename_i v hv
+    split
+    · have hR : R5 v.main (s.sh.withVM v) (execStmt (importModule env fuel) env v.main 0 (s.sh.withVM v) stmt).2 :=
+        execStmt_rel (R5_relOK v.main) _ (importModule_R5 env fuel v.main) env v.main 0 _ stmt (Or.inl rfl)
+      have hme := inv.main e v hv
+      have hmj := inv.main j vj hj
+      have hle : e < n := by rw [← inv.len]; exact getElem?_lt_of_some hv
+      have hlj : j < n := by rw [← inv.len]; exact getElem?_lt_of_some hj
+      have hd := inv.disj j e vj v hje hj hv
+      obtain ⟨bj, lj, _, _⟩ := inv.w vj (List.mem_of_getElem? hj)
+      have hglt : g < s.sh.heap.length := by
+        rcases hg with rfl | hg
+        · have := inv.heap; omega
+        · simp only [VM.arrays, List.mem_map] at hg
+          obtain ⟨q, hq, rfl⟩ := hg
+          exact bj q (lj q hq)
+      have hno : ¬ OwnM v.main (s.sh.withVM v) g := by
+        intro ho
+        rcases ho with ho | ⟨c, hc⟩
+        · rcases hg with rfl | hg
+          · omega
+          · simp only [VM.arrays, List.mem_map] at hg
+            obtain ⟨q, hq, rfl⟩ := hg
+            have := inv.low vj (List.mem_of_getElem? hj) q hq
+            omega
+        · have hc' : (c, g) ∈ v.loaded := hc
+          rcases hg with rfl | hg
+          · have := inv.low v (List.mem_of_getElem? hv) _ hc'
+            simp only at this; omega
+          · simp only [VM.arrays, List.mem_map] at hg
+            obtain ⟨q, hq, he⟩ := hg
+            exact hd.1 q hq _ hc' he
+      exact hR.frame g hglt hno
+    · rfl
+
+/-- the decidable Spec predicate the oracle prints agrees with `evaluations_share_nothing` -/
+theorem session_disjoint (env : Env) (fuel n : Nat) (sched : List (Nat × Stmt)) :
+    sessDisjoint (session env fuel n sched) = true := by
+  simp only [sessDisjoint, List.all_eq_true, List.mem_range]
+  intro i _ j _
+  cases hi : (session env fuel n sched).vms[i]? with
+  | none => rfl
+  | some vi =>
+    cases hj : (session env fuel n sched).vms[j]? with
+    | none => rfl
+    | some vj =>
+      by_cases hij : i = j
+      · simp [hij]
+      · obtain ⟨h1, h2⟩ := evaluations_share_nothing env fuel n sched i j vi vj hij hi hj
+        simp only [Bool.or_eq_true, beq_iff_eq, hij, false_or, Bool.and_eq_true, List.all_eq_true,
+          bne_iff_ne, ne_eq, Bool.not_eq_true', List.contains_eq_mem, decide_eq_false_iff_not]
+        refine ⟨fun p hp q hq => h1 p hp q hq, fun g hg => ?_⟩
+        obtain ⟨a, b, c⟩ := h2 g hg
+        exact ⟨⟨a, b⟩, c⟩
+
+/-! ### One evaluation -/
+
+theorem withVM_self (st : St) (v : VM) (hc : v.cache = st.cache) (hl : v.loaded = st.loaded)
+    (hi : st.importing = []) : st.withVM v = st := by
+  cases st
+  simp_all [St.withVM]
+
+theorem sess_skip (imp : ImpFn) (env : Env) (st : St) (v : VM) (hv : v.out ≠ .ok) :
+    ∀ (ss : List Stmt), (ss.map fun x => ((0 : Nat), x)).foldl (fun s p => sessStep imp env s p.1 p.2) { sh := st, vms := [v] }
+      = { sh := st, vms := [v] } := by
+  intro ss
+  induction ss with
+  | nil => rfl
+  | cons x rest ih =>
+    simp only [List.map_cons, List.foldl_cons]
+    have : sessStep imp env { sh := st, vms := [v] } 0 x = { sh := st, vms := [v] } := by
+      simp [sessStep, hv]
+    rw [this]; exact ih
+
+theorem sess_single_aux (env : Env) (fuel : Nat) :
+    ∀ (ss : List Stmt) (st : St) (v : VM), v.cache = st.cache → v.loaded = st.loaded → st.importing = [] →
+      v.main = 0 → v.out = .ok →
+      ∃ v', (ss.map fun x => ((0 : Nat), x)).foldl (fun s p => sessStep (importModule env fuel) env s p.1 p.2)
+            { sh := st, vms := [v] } = { sh := (execStmts (importModule env fuel) env 0 0 ss st).2, vms := [v'] } ∧
+        v'.out = (execStmts (importModule env fuel) env 0 0 ss st).1 ∧
+        v'.cache = (execStmts (importModule env fuel) env 0 0 ss st).2.cache ∧
+        v'.loaded = (execStmts (importModule env fuel) env 0 0 ss st).2.loaded ∧ v'.main = 0 := by
+  intro ss
+  induction ss with
+  | nil => intro st v hc hl _ hm ho; exact ⟨v, rfl, ho, hc, hl, hm⟩
+  | cons x rest ih =>
+    intro st v hc hl hi hm ho
+    simp only [List.map_cons, List.foldl_cons, execStmts]
+    have hself := withVM_self st v hc hl hi
+    have hstep : sessStep (importModule env fuel) env { sh := st, vms := [v] } 0 x =
+        { sh := (execStmt (importModule env fuel) env 0 0 st x).2,
+          vms := [{ v with cache := (execStmt (importModule env fuel) env 0 0 st x).2.cache,
+                           loaded := (execStmt (importModule env fuel) env 0 0 st x).2.loaded,
+                           out := (execStmt (importModule env fuel) env 0 0 st x).1 }] } := by
+      simp [sessStep, ho, hm, hself]
+    rw [hstep]
+    have himp : (execStmt (importModule env fuel) env 0 0 st x).2.importing = [] := by
+      have := (execStmt_rel R2_relOK (importModule env fuel)
+        (fun d s n => importModule_rel env (R2_impOK env) fuel d s n) env 0 0 st x trivial).1
+      rw [this]; exact hi
+    cases hr : (execStmt (importModule env fuel) env 0 0 st x).1 with
+    | ok =>
+      simp only []
+      exact ih _ _ rfl rfl himp hm rfl
+    | err =>
+      simp only []
+      rw [sess_skip _ _ _ _ (by simp)]
+      exact ⟨_, rfl, rfl, rfl, rfl, hm⟩
+    | panic =>
+      simp only []
+      rw [sess_skip _ _ _ _ (by simp)]
+      exact ⟨_, rfl, rfl, rfl, rfl, hm⟩
+
+/-- **A session of ONE evaluation is the evaluation of Part B**: scheduling the statements of a
+    script one after the other as the only evaluation of a session gives the outcome and the
+    state of `run` — the session machine extends the machine the run-once and own-globals theorems
+    are about, it does not replace it. -/
+theorem session_of_one_is_run (env : Env) (fuel : Nat) (main : List Stmt) :
+    ∃ v, session env fuel 1 (main.map fun x => (0, x)) = { sh := (run env fuel main).2, vms := [v] } ∧
+      v.out = (run env fuel main).1 := by
+  obtain ⟨v', h1, h2, _⟩ := sess_single_aux env fuel main St.init { main := 0 } rfl rfl rfl rfl rfl
+  refine ⟨v', ?_, h2⟩
+  unfold session sessRun run
+  exact h1
+/-! ### The witness: why the importer must hand out a NEW module object per `Import` call -/
+
+def nmC : Path := [99]          -- module "c" (a counter)
+/-- `c.risor`: `n := 0` (and the functions `add_n`, `get_n`) -/
+def ctrEnv : Env := { root := [47, 82], exts := [[]], files := [(nmC, [.set nmN 0])], limit := 1024 }
+/-- evaluation 0: `import c; c.add_n(1); c.add_n(1)` — then evaluation 1 (a plugin script run by a host
+    builtin, with the same importer): `import c; c.add_n(1)` — then evaluation 0 again: `c.add_n(5)` -/
+def ctrSched : List (Nat × Stmt) :=
+  [(0, .imp nmC nmC), (0, .addVia nmC nmN 1), (0, .addVia nmC nmN 1), (1, .imp nmC nmC), (1, .addVia nmC nmN 1),
+   (0, .addVia nmC nmN 5)]
+
+/-- **`module_views_agree` and `evaluations_share_nothing` rest on the importer creating a new
+    module object per `Import` call**: with an importer that caches the module OBJECT per name
+    (`importModuleMC` — one `*object.Module` handed to every VM) the second evaluation's
+    `UseGlobals` rebinds the object the first evaluation still holds: in evaluation 0 `c.n` now
+    reads evaluation 1's counter (1) while `c.get_n()` reads its own (7) — two views of one module
+    disagree, and the two evaluations hold the same module object. -/
+theorem fresh_module_objects_needed :
+    sessViewsAgree (sessionMC ctrEnv 5 2 ctrSched) = false ∧
+    sessDisjoint (sessionMC ctrEnv 5 2 ctrSched) = false ∧
+    (sessionMC ctrEnv 5 2 ctrSched).sh.objs = [(nmC, 3)] ∧
+    ((sessionMC ctrEnv 5 2 ctrSched).sh.globals 3).lookup nmN = some (.int 1) ∧
+    ((sessionMC ctrEnv 5 2 ctrSched).sh.globals 2).lookup nmN = some (.int 7) := by
+  decide
+
+-- the unchanged importer on the same session: two module objects, two arrays, each evaluation its own counter
+example : (session ctrEnv 5 2 ctrSched).sh.objs = [(nmC, 2), (nmC, 3)] := by decide
+example : ((session ctrEnv 5 2 ctrSched).sh.globals 2).lookup nmN = some (.int 7) := by decide
+example : ((session ctrEnv 5 2 ctrSched).sh.globals 3).lookup nmN = some (.int 1) := by decide
+example : (session ctrEnv 5 2 ctrSched).vms.map (·.cache) = [[(nmC, 0)], [(nmC, 1)]] := by decide
+example : (session ctrEnv 5 2 ctrSched).vms.map (·.arrays) = [[2], [3]] := by decide
+-- both evaluations run the module's body: run-once is per evaluation
+example : (session ctrEnv 5 2 ctrSched).sh.ticks = [nmC, nmC] := by decide
+-- the importer compiled the module once: one code object, loaded by each VM with its own array
+example : (session ctrEnv 5 2 ctrSched).sh.compiled = [(nmC, 0)] := by decide
+example : (session ctrEnv 5 2 ctrSched).sh.owner = [(0, 3), (0, 2)] := by decide
 
 end Risor.C14
